@@ -114,3 +114,16 @@ PROPS["C09"] = {
         "equal-timestamp gauge datapoints: any of the tied values is accepted",
     ],
 }
+
+PROPS["C04"] = {
+    "pkg": "c04", "level": "exploration", "crash_is_violation": True,
+    "jobs": {
+        "quick": [{"name": "flush", "run": "^TestFlushNeverCrashes$", "checks": 1600, "shards": 8, "steps": 12}],
+        "thorough": [{"name": "flush", "run": "^TestFlushNeverCrashes$", "checks": 160000, "shards": 16, "steps": 20, "timeout": 1700}],
+    },
+    "assumptions": [
+        "HTTP transports answer 2xx at once and socket listeners accept and read everything (transport faults are C16's subject)",
+        "a panic on a goroutine the backend spawns kills the test binary; the case is journaled before every flush and the driver reports the journaled case",
+        "the AWS SDK is pinned offline by environment (static credentials, IMDS disabled, one attempt)",
+    ],
+}
